@@ -113,9 +113,9 @@ func (c *BaseClient) Connect(ctx context.Context, clientID string, opts ...Conne
 			return false, wrapError(err, "applying options")
 		}
 	}
-	c.init()
 	c.muConnecting.Lock()
 	defer c.muConnecting.Unlock()
+	c.init()
 
 	go func() {
 		err := c.serve()
